@@ -38,7 +38,8 @@ ASSUMPTIONS = [
 def floors(tier):
     return {"bf=0": 300, "bf=1": 300, "mode=GET": 200, "mode=SET": 100, "mode=POLL": 100,
             "count=0": 20, "count>=100": 5, "nested": 2, "variant": 20, "none-group": 20,
-            "neg": 50, "scaled": 100, "after-failed-operation": 500, "via-reader": 1000}
+            "neg": 50, "scaled": 100, "after-failed-operation": 500, "via-reader": 1000,
+            "via-reader-after-twin": 300}
 
 
 def eligible(t):
@@ -189,9 +190,20 @@ def check(case) -> core.Out:
         out.classes = list(out.classes) + ["via-reader"]
         logging.disable(logging.CRITICAL)
         try:
-            rd = pyubx2.UBXReader(io.BytesIO(frame), msgmode=mode, parsebitfield=bf,
-                                  validate=case["via_reader"], quitonerror=2)
-            _raw, m2 = rd.read()
+            pre = b""
+            if len(payload) >= 3 and (payload[0] + len(payload)) % 2 == 0:
+                # the reader sees, just before, a frame of the same type, length and
+                # checksum with a different payload (and a sentence in between)
+                out.classes = list(out.classes) + ["via-reader-after-twin"]
+                pre = codec.ubx_frame(clsid[0:1], clsid[1:2], codec.fletcher_twin(payload, sum(payload), payload[-1]))
+                if payload[1] % 2:
+                    pre += codec.nmea_frame("GNGLL,5327.04319,N,00214.41396,W,223232.00,A,A")
+            rd = pyubx2.UBXReader(io.BytesIO(pre + frame), msgmode=mode, parsebitfield=bf,
+                                  validate=case["via_reader"], quitonerror=2 if not pre else 0)
+            if pre:
+                m2 = ([p for r, p in rd if r == frame] or [None])[-1]
+            else:
+                _raw, m2 = rd.read()
             if m2 is None or C.public_attrs(m2) != actual and repr(C.public_attrs(m2)) != repr(actual):
                 out.viol.append((key + "reader-differs", f"reader(validate={case['via_reader']}, parsebitfield={bf}) "
                                                          f"parses the frame differently from UBXReader.parse"))
